@@ -27,6 +27,7 @@ def exercise(ctx):
     V = lambda k, msg: ctx.violation(f"{pos}:{k}", f"word {word!r}: {msg}")
 
     def grpc_call(kind="sync", **kw):
+        # m and path are read at call time (the twin position switches methods)
         client = rig.client(f, svc, kind)
         meth = getattr(client, client_method_name(m["name"]), None)
         if meth is None:
@@ -148,6 +149,22 @@ def exercise(ctx):
                     want = {"routing_id": "items/i9", (f"dep.{word}" if pos == "dep-routing-explicit" else word): "items/i9"}
                     if hp is None or dict(hp[1]) != want:
                         V("routing-key", f"{kind} routing header {hp[0] if hp else None!r}, expected {want}")
+        if pos == "dep-routing-twin":
+            for mi, rname in ((0, "FrobRequest"), (1, "ProbeRequest")):
+                m = svc["methods"][mi]
+                path = f"/{f['package']}.{svc['name']}/{m['name']}"
+                R2 = ctx.msgclass(P + rname)
+                r = R2()
+                setattr(r.dep, word, "items/i9")
+                for kind in ("sync", "async"):
+                    c = grpc_call(kind, request=to_python(ctx, P + rname, r))
+                    if c is not None:
+                        hp = header_pairs(c["metadata"], kind)
+                        if hp is None or dict(hp[1]) != {"routing_id": "items/i9"}:
+                            V("routing-key", f"{m['name']} {kind}: routing header {hp[0] if hp else None!r}, expected routing_id=items/i9")
+                        if R2.FromString(c["requests"][0]) != r:
+                            V("wire-request", f"{m['name']} {kind}: request changed on the wire")
+            m = svc["methods"][0]
         if pos in ("rpc-name", "rpc-name-transport"):
             name = snake(m["name"])
             exp = name + "_" if keyword.iskeyword(name) else name
